@@ -285,6 +285,44 @@ impl Serialize for UnitS {
 }
 
 // ------------------------------------------------------------------ the runs
+/// a payload of more than 4 KB without heap memory of its own (hand-written impls, a sequence of 600 words)
+#[derive(Clone, PartialEq)]
+pub struct Table(pub [u64; 600]);
+impl fmt::Debug for Table {
+    fn fmt(&self, f: &mut fmt::Formatter) -> fmt::Result {
+        write!(f, "Table[{}, {}, ..]", self.0[0], self.0[1])
+    }
+}
+impl Serialize for Table {
+    fn serialize<S: Serializer>(&self, s: S) -> Result<S::Ok, S::Error> {
+        use serde::ser::SerializeSeq;
+        let mut q = s.serialize_seq(Some(4))?;
+        for i in 0..4 {
+            q.serialize_element(&self.0[i])?;
+        }
+        q.end()
+    }
+}
+impl<'de> Deserialize<'de> for Table {
+    fn deserialize<D: Deserializer<'de>>(d: D) -> Result<Table, D::Error> {
+        struct V;
+        impl<'de> Visitor<'de> for V {
+            type Value = Table;
+            fn expecting(&self, f: &mut fmt::Formatter) -> fmt::Result {
+                f.write_str("Table")
+            }
+            fn visit_seq<A: SeqAccess<'de>>(self, mut a: A) -> Result<Table, A::Error> {
+                let mut t = Table([0; 600]);
+                for i in 0..4 {
+                    t.0[i] = a.next_element()?.ok_or_else(|| de::Error::invalid_length(i, &self))?;
+                }
+                Ok(t)
+            }
+        }
+        d.deserialize_any(V)
+    }
+}
+
 fn live_blocks() -> usize {
     alloc::table().iter().filter(|r| r.live).count()
 }
@@ -520,6 +558,12 @@ pub fn run(out_path: &str) {
     ot.extend(inner_t(2, "b"));
     de_case::<Outer>("Outer", &ot, &mut out);
     de_case::<Inner>("Inner", &inner_t(9, "z"), &mut out);
+    de_case::<Table>("Table (4.8 KB)", &[Seq(4), U64(1), U64(2), U64(3), U64(4)], &mut out);
+    {
+        let mut t = Table([0; 600]);
+        t.0[..4].copy_from_slice(&[1, 2, 3, 4]);
+        ser_case("Table (4.8 KB)", &t, &mut out);
+    }
     de_in_place_case::<u64>("u64", &5u64, &[U64(42)], &mut out);
     de_in_place_case::<(u32, String)>("(u32,String)", &(1u32, String::from("old")), &[Seq(2), U64(5), Str("t".into())], &mut out);
     de_in_place_case::<Inner>("Inner", &Inner { x: 100, s: "old".into() }, &inner_t(9, "z"), &mut out);
